@@ -136,7 +136,7 @@ def run(ctx):
         sets.append(("P" + name, name))
     for ps, g in sets:
         q = uni.group(g).order()
-        edge = [0, 1, 2, q - 1, q - 2, (q - 1) // 2, (q + 1) // 2, 2 ** 64]
+        edge = [0, 1, 2, q - 1, q - 2, (q - 1) // 2, (q + 1) // 2, 2 ** 64 % q]
         grid = [(x, y) for x in edge for y in edge] if thorough else \
             [(0, 0), (0, 1), (1, 0), (q - 1, 1), (1, q - 1), (q - 1, q - 1), (0, q - 1), (2, (q + 1) // 2)]
         grid += [(ctx.rng.randrange(q), ctx.rng.randrange(q)) for _ in range(30 if thorough else 2)]
